@@ -76,7 +76,7 @@ def gen(rng, tier, i):
         steps.append([k, rng.randrange(1 << 16), rng.randrange(1 << 16)])
     if not any(s[0] == 'resolve' for s in steps): steps.insert(rng.randint(0, len(steps)), ['resolve', 0, 0])
     return {'lib': li, 'n_in': n_in, 'items': items, 'outs': [rng.randrange(1 << 16) for _ in range(rng.randint(1, 4))], 'out_all_unread': rng.random() < 0.6,
-            'fmode': [rng.choice([0, 0, 1, 2, 3]) for _ in range(rng.randint(1, 5))], 'steps': steps}
+            'fmode': [rng.choice([0, 0, 1, 2, 3]) for _ in range(rng.randint(1, 5))], 'steps': steps, 'ports_first': rng.random() < 0.3, 'node_order': rng.randrange(1, 1 << 16) if rng.random() < 0.4 else 0}
 
 
 def cell_pins(impl):
@@ -198,6 +198,8 @@ def build(case, res):
         Line(c, (pn, ppin), (f, 0))
         cgen._fan(c, f, rd, mode, f's{s}')
     for n in ins + outs: c.io_nodes.append(n)
+    if case.get('ports_first') or case.get('node_order'):
+        c = cgen.reorder(c, case.get('node_order') or 1, ports_first=bool(case.get('ports_first')))
     return c
 
 
@@ -311,6 +313,11 @@ def execute(case):
             res.violate('s-nodes-changed', f'step {k} ({did}): ports/state elements before {names0[:10]} after {names1[:10]} (added {added[:4]}, removed {removed[:4]})')
             return res
         if not graphsim.check_invariants(c, res, k, did): return res     # a structurally corrupt graph has no function
+        if kind == 'resolve':
+            left = [f'{n.name}:{n.kind}' for n in c.nodes if n.kind in tlib.cells]
+            if left:
+                res.violate('unresolved-cell-after-resolve', f'step {k} (resolve): library cell instance(s) {left[:4]} are still in the circuit after resolve_tlib_cells')
+                return res
         try:
             _n1, tab1 = table(c, [tlib], {})
         except (ValueError, KeyError, AttributeError, IndexError, TypeError) as ex:
@@ -346,5 +353,7 @@ def shrinks(case):
     if case.get('out_all_unread'): yield dict(case, out_all_unread=False)
     if case['n_in'] > 1: yield dict(case, n_in=case['n_in'] - 1)
     if case['fmode'] != [0]: yield dict(case, fmode=[0])
+    if case.get('node_order'): yield dict(case, node_order=0)
+    if case.get('ports_first'): yield dict(case, ports_first=False)
     for j, x in enumerate(it):
         if x[0] == 'lib' and x[3] != 0xff: yield dict(case, items=it[:j] + [[x[0], x[1], x[2], 0xff, x[4]]] + it[j + 1:])
